@@ -33,7 +33,7 @@ theorem handleVote_log (nd : Node) (c t li lt stage : Nat) :
 theorem inv2_frame (n : Nat) (s s' : Sys) (h : Inv2 n s)
     (hlog : ∀ j, (s'.nodes j).log = (s.nodes j).log)
     (htl : s'.ghost.tl = s.ghost.tl) (hel : s'.ghost.elected = s.ghost.elected)
-    (hnet : ∀ ldr t p pt es, Msg.ae ldr t p pt es ∈ s'.net → Msg.ae ldr t p pt es ∈ s.net)
+    (hnet : ∀ ldr t p pt es lc, Msg.ae ldr t p pt es lc ∈ s'.net → Msg.ae ldr t p pt es lc ∈ s.net)
     (hterm : ∀ j, (s.nodes j).term ≤ (s'.nodes j).term)
     (hrole : ∀ j, ((s'.nodes j).role = (s.nodes j).role ∧ (s'.nodes j).term = (s.nodes j).term) ∨
         (s'.nodes j).role = .follower ∨
@@ -49,7 +49,7 @@ theorem inv2_frame (n : Nat) (s s' : Sys) (h : Inv2 n s)
     · rw [hlog, htl, hel, r2]; exact a4 i (by rw [← r1]; exact hi)
     · rw [r1] at hi; cases hi
     · rw [r1] at hi; cases hi
-  · intro ldr t p pt es hm; rw [htl]; exact a5 ldr t p pt es (hnet ldr t p pt es hm)
+  · intro ldr t p pt es lc hm; rw [htl]; exact a5 ldr t p pt es lc (hnet ldr t p pt es lc hm)
   · intro t l Q hq; rw [hel] at hq; have := a6 t l Q hq; have := hterm l; omega
   · intro i Q hq
     rw [hel] at hq
@@ -59,8 +59,8 @@ theorem inv2_frame (n : Nat) (s s' : Sys) (h : Inv2 n s)
     · have := a6 _ _ _ hq; omega
 
 
-theorem handleAE_log (nd : Node) (t p pt : Nat) (es : List Entry) (stage : Nat) :
-    let r := handleAE nd t p pt es stage
+theorem handleAE_log (nd : Node) (t p pt : Nat) (es : List Entry) (lc stage : Nat) :
+    let r := handleAE nd t p pt es lc stage
     r.1 = nd ∨
     (r.1.role = .follower ∧ nd.term ≤ r.1.term ∧
       (r.1.log = nd.log ∨
@@ -106,11 +106,17 @@ theorem handleAE_log (nd : Node) (t p pt : Nat) (es : List Entry) (stage : Nat) 
         · exact ⟨hrole, Nat.le_refl _, Or.inr ⟨hc, Or.inr rfl⟩⟩
         · exact ⟨hrole, Nat.le_refl _, Or.inr ⟨hc, Or.inl rfl⟩⟩
 
-theorem ghost_if_tl (b : Bool) (g : Ghost) (x : Nat × Nat × Nat) :
-    (if b = true then ({ g with grants := x :: g.grants } : Ghost) else g).tl = g.tl := by
+theorem ghost_if_tl (b : Bool) (g : Ghost) (x : Nat × Nat × Nat) (y : Nat × Nat × Nat × List Entry × Bool) :
+    (if b = true then ({ g with grants := x :: g.grants, glogs := y :: g.glogs } : Ghost) else g).tl = g.tl := by
   split <;> rfl
-theorem ghost_if_elected (b : Bool) (g : Ghost) (x : Nat × Nat × Nat) :
-    (if b = true then ({ g with grants := x :: g.grants } : Ghost) else g).elected = g.elected := by
+theorem ghost_if_elected (b : Bool) (g : Ghost) (x : Nat × Nat × Nat) (y : Nat × Nat × Nat × List Entry × Bool) :
+    (if b = true then ({ g with grants := x :: g.grants, glogs := y :: g.glogs } : Ghost) else g).elected = g.elected := by
+  split <;> rfl
+theorem ghost_ifa_tl (b : Bool) (g : Ghost) (x : Nat × Nat × Nat) :
+    (if b = true then ({ g with acks := x :: g.acks } : Ghost) else g).tl = g.tl := by
+  split <;> rfl
+theorem ghost_ifa_elected (b : Bool) (g : Ghost) (x : Nat × Nat × Nat) :
+    (if b = true then ({ g with acks := x :: g.acks } : Ghost) else g).elected = g.elected := by
   split <;> rfl
 
 theorem inv2_step (n : Nat) (s s' : Sys) (hreach : Reachable n s) (h : Inv2 n s)
@@ -127,7 +133,7 @@ theorem inv2_step (n : Nat) (s s' : Sys) (hreach : Reachable n s) (h : Inv2 n s)
       · rfl
     · rfl
     · rfl
-    · intro ldr t p pt es hm
+    · intro ldr t p pt es lc hm
       simp only [apply, List.mem_cons] at hm
       rcases hm with hm | hm
       · cases hm
@@ -145,7 +151,7 @@ theorem inv2_step (n : Nat) (s s' : Sys) (hreach : Reachable n s) (h : Inv2 n s)
       · rfl
     · rfl
     · rfl
-    · intro ldr t p pt es hm; exact hm
+    · intro ldr t p pt es lc hm; exact hm
     · intro j; simp only [apply, setNode_nodes]; split
       · rename_i hj; subst hj; simp
       · exact Nat.le_refl _
@@ -160,9 +166,9 @@ theorem inv2_step (n : Nat) (s s' : Sys) (hreach : Reachable n s) (h : Inv2 n s)
     · intro k; simp only [apply, setNode_nodes]; split
       · rename_i hk; subst hk; exact f1
       · rfl
-    · simp only [apply]; exact ghost_if_tl _ _ _
-    · simp only [apply]; exact ghost_if_elected _ _ _
-    · intro ldr t' p pt es hm
+    · simp only [apply]; exact ghost_if_tl _ _ _ _
+    · simp only [apply]; exact ghost_if_elected _ _ _ _
+    · intro ldr t' p pt es lc hm
       simp only [apply, List.mem_cons] at hm
       rcases hm with hm | hm
       · cases hm
@@ -247,10 +253,10 @@ theorem inv2_step (n : Nat) (s s' : Sys) (hreach : Reachable n s) (h : Inv2 n s)
             intro heq; rw [heq] at b3; exact hnone k Q b3
           simp only [upd, hne_term, if_false]
           exact ⟨b1, b2, Q, List.mem_cons_of_mem _ b3⟩
-      · intro ldr t' p pt es hm'
+      · intro ldr t' p pt es lc hm'
         rw [htl']
         simp only [apply, hwon, decide_true, if_true] at hm'
-        have hmo := a5 ldr t' p pt es hm'
+        have hmo := a5 ldr t' p pt es lc hm'
         have hne_term : t' ≠ t := by
           intro heq; rw [heq] at hmo; exact hmo.nonempty htlnil
         obtain ⟨m1, m2, m3, m4⟩ := hmo
@@ -287,7 +293,7 @@ theorem inv2_step (n : Nat) (s s' : Sys) (hreach : Reachable n s) (h : Inv2 n s)
         · rfl
       · simp only [apply, hwon, decide_false, if_false, Bool.false_eq_true]
       · simp only [apply, hwon, decide_false, if_false, Bool.false_eq_true]
-      · intro ldr t' p pt es hm'
+      · intro ldr t' p pt es lc hm'
         simp only [apply, hwon, decide_false, if_false, Bool.false_eq_true] at hm'
         exact hm'
       · intro j; simp only [apply, setNode_nodes]; split
@@ -303,7 +309,7 @@ theorem inv2_step (n : Nat) (s s' : Sys) (hreach : Reachable n s) (h : Inv2 n s)
       · rfl
     · rfl
     · rfl
-    · intro ldr t p pt es hm; exact hm
+    · intro ldr t p pt es lc hm; exact hm
     · intro j; simp only [apply, setNode_nodes]; split
       · rename_i hj; subst hj; exact Nat.le_refl _
       · exact Nat.le_refl _
@@ -316,7 +322,7 @@ theorem inv2_step (n : Nat) (s s' : Sys) (hreach : Reachable n s) (h : Inv2 n s)
     · intro j; rfl
     · rfl
     · rfl
-    · intro ldr t p pt es hm
+    · intro ldr t p pt es lc hm
       simp only [apply, List.mem_cons] at hm
       rcases hm with hm | hm
       · rw [hm]; exact hen
@@ -377,9 +383,9 @@ theorem inv2_step (n : Nat) (s s' : Sys) (hreach : Reachable n s) (h : Inv2 n s)
           exact hki (election_safety n s hreach _ _ _ _ _ b3 hQ0)
         simp only [upd, hne_term, if_false]
         exact ⟨b1, b2, Q, b3⟩
-    · intro ldr t p' pt es hm
+    · intro ldr t p' pt es lc hm
       rw [htl']
-      exact msgOK_extend _ _ _ _ _ _ _ (a5 ldr t p' pt es hm)
+      exact msgOK_extend _ _ _ _ _ _ _ (a5 ldr t p' pt es lc hm)
     · intro t l Q hq
       simp only [apply, setNode_nodes] at hq ⊢
       have := a6 t l Q hq
@@ -395,45 +401,64 @@ theorem inv2_step (n : Nat) (s s' : Sys) (hreach : Reachable n s) (h : Inv2 n s)
       · rename_i hki
         simp only [hki, if_false] at hq
         exact a7 k Q hq
-  | sendAE i prevIdx len =>
+  | sendAE i prevIdx len lc =>
     simp only [enabled] at hen
-    obtain ⟨hi, hrole, hp⟩ := hen
+    obtain ⟨hi, hrole, hp, _⟩ := hen
     obtain ⟨a1, a2, a3, a4, a5, a6, a7⟩ := h
     obtain ⟨hlog, hne, Q0, hQ0⟩ := a4 i hrole
     refine ⟨a1, a2, a3, a4, ?_, a6, a7⟩
-    intro ldr t p pt es hm
+    intro ldr t p pt es lc' hm
     simp only [apply, List.mem_cons] at hm
     rcases hm with hm | hm
-    · injection hm with e1 e2 e3 e4 e5
-      subst e1 e2 e3 e4 e5
+    · injection hm with e1 e2 e3 e4 e5 e6
+      subst e1 e2 e3 e4 e5 e6
       simp only [apply]
       rw [hlog] at hp ⊢
       refine ⟨hne, ?_, ?_, rfl⟩
       · simp only [List.length_take, List.length_drop]; omega
       · exact (take_take_length _ _).symm
-    · exact a5 ldr t p pt es hm
-  | recvAE j ldr t prevIdx prevTerm es stage =>
+    · exact a5 ldr t p pt es lc' hm
+  | recvAE j ldr t prevIdx prevTerm es lc stage =>
     simp only [enabled] at hen
     obtain ⟨hj, hm⟩ := hen
     obtain ⟨a1, a2, a3, a4, a5, a6, a7⟩ := h
-    have hmsg := a5 ldr t prevIdx prevTerm es hm
-    have hf := handleAE_log (s.nodes j) t prevIdx prevTerm es stage
+    have hmsg := a5 ldr t prevIdx prevTerm es lc hm
+    have hf := handleAE_log (s.nodes j) t prevIdx prevTerm es lc stage
     simp only at hf
+    have htl : (apply n s (Label.recvAE j ldr t prevIdx prevTerm es lc stage)).ghost.tl = s.ghost.tl := by
+      simp only [apply]; exact ghost_ifa_tl _ _ _
+    have hel : (apply n s (Label.recvAE j ldr t prevIdx prevTerm es lc stage)).ghost.elected
+        = s.ghost.elected := by
+      simp only [apply]; exact ghost_ifa_elected _ _ _
+    have hnet : ∀ l' t' p' pt' es' lc', Msg.ae l' t' p' pt' es' lc' ∈
+        (apply n s (Label.recvAE j ldr t prevIdx prevTerm es lc stage)).net →
+        Msg.ae l' t' p' pt' es' lc' ∈ s.net := by
+      intro l' t' p' pt' es' lc' hm'
+      simp only [apply] at hm'
+      split at hm'
+      · rcases List.mem_cons.mp hm' with h | h
+        · cases h
+        · exact h
+      · exact hm'
+    have hnodes : ∀ k, (apply n s (Label.recvAE j ldr t prevIdx prevTerm es lc stage)).nodes k
+        = if k = j then (handleAE (s.nodes j) t prevIdx prevTerm es lc stage).1 else s.nodes k := by
+      intro k; simp only [apply, setNode_nodes]
     rcases hf with hsame | ⟨frole, fterm, flog⟩
     · -- request ignored
-      have : apply n s (Label.recvAE j ldr t prevIdx prevTerm es stage) = setNode s j (s.nodes j) := by
-        simp only [apply, hsame]
-      have hnodes : ∀ k, (apply n s (Label.recvAE j ldr t prevIdx prevTerm es stage)).nodes k = s.nodes k := by
-        intro k; rw [this]; simp only [setNode_nodes]; split
-        · rename_i hk; rw [hk]
+      have hnodes' : ∀ k, (apply n s (Label.recvAE j ldr t prevIdx prevTerm es lc stage)).nodes k = s.nodes k := by
+        intro k; rw [hnodes]; split
+        · rename_i hk; rw [hsame, hk]
         · rfl
-      refine ⟨?_, a2, a3, ?_, a5, ?_, ?_⟩
-      · intro k; rw [hnodes]; exact a1 k
-      · intro k hk; rw [hnodes] at hk ⊢; exact a4 k hk
-      · intro t' l Q hq; rw [hnodes]; exact a6 t' l Q hq
-      · intro k Q hq; rw [hnodes] at hq ⊢; exact a7 k Q hq
+      refine ⟨?_, ?_, ?_, ?_, ?_, ?_, ?_⟩
+      · intro k; rw [hnodes', htl]; exact a1 k
+      · intro u; rw [htl]; exact a2 u
+      · intro u hu; rw [htl] at hu; rw [hel]; exact a3 u hu
+      · intro k hk; rw [hnodes'] at hk ⊢; rw [htl, hel]; exact a4 k hk
+      · intro l' t' p' pt' es' lc' hm'; rw [htl]; exact a5 _ _ _ _ _ _ (hnet _ _ _ _ _ _ hm')
+      · intro t' l Q hq; rw [hel] at hq; rw [hnodes']; exact a6 t' l Q hq
+      · intro k Q hq; rw [hel] at hq; rw [hnodes'] at hq ⊢; exact a7 k Q hq
     · -- request processed
-      have hnewlog : PrefixOK s.ghost.tl (handleAE (s.nodes j) t prevIdx prevTerm es stage).1.log := by
+      have hnewlog : PrefixOK s.ghost.tl (handleAE (s.nodes j) t prevIdx prevTerm es lc stage).1.log := by
         rcases flog with hl | ⟨hchk, hl | hl⟩
         · rw [hl]; exact a1 j
         · rw [hl]
@@ -464,12 +489,15 @@ theorem inv2_step (n : Nat) (s s' : Sys) (hreach : Reachable n s) (h : Inv2 n s)
             · exact h1
           obtain ⟨m, hm'⟩ := trunc_prefix es (s.nodes j).log prevIdx hpL
           rw [hm']; exact prefixOK_take _ _ _ (a1 j)
-      refine ⟨?_, a2, a3, ?_, a5, ?_, ?_⟩
-      · intro k; simp only [apply, setNode_nodes]; split
+      refine ⟨?_, ?_, ?_, ?_, ?_, ?_, ?_⟩
+      · intro k; rw [hnodes, htl]; split
         · exact hnewlog
         · exact a1 k
+      · intro u; rw [htl]; exact a2 u
+      · intro u hu; rw [htl] at hu; rw [hel]; exact a3 u hu
       · intro k hk
-        simp only [apply, setNode_nodes] at hk ⊢
+        rw [hnodes] at hk ⊢
+        rw [htl, hel]
         split
         · rename_i hkj
           simp only [hkj, if_true] at hk
@@ -477,20 +505,36 @@ theorem inv2_step (n : Nat) (s s' : Sys) (hreach : Reachable n s) (h : Inv2 n s)
         · rename_i hkj
           simp only [hkj, if_false] at hk
           exact a4 k hk
+      · intro l' t' p' pt' es' lc' hm'; rw [htl]; exact a5 _ _ _ _ _ _ (hnet _ _ _ _ _ _ hm')
       · intro t' l Q hq
-        simp only [apply, setNode_nodes] at hq ⊢
+        rw [hel] at hq
+        rw [hnodes]
         have := a6 t' l Q hq
         split
         · rename_i hl; subst hl; omega
         · exact this
       · intro k Q hq
-        simp only [apply, setNode_nodes] at hq ⊢
+        rw [hel] at hq
+        rw [hnodes] at hq ⊢
         split
         · rw [frole]; intro hc; cases hc
         · rename_i hkj
           simp only [hkj, if_false] at hq
           exact a7 k Q hq
-
+  | advanceCommit i k Q =>
+    apply inv2_frame n s _ h
+    · intro j; simp only [apply, setNode_nodes]; split
+      · rename_i hj; subst hj; rfl
+      · rfl
+    · rfl
+    · rfl
+    · intro ldr t p pt es lc hm; exact hm
+    · intro j; simp only [apply, setNode_nodes]; split
+      · rename_i hj; subst hj; exact Nat.le_refl _
+      · exact Nat.le_refl _
+    · intro j; simp only [apply, setNode_nodes]; split
+      · rename_i hj; subst hj; left; exact ⟨rfl, rfl⟩
+      · left; exact ⟨rfl, rfl⟩
 
 theorem inv2_init (n : Nat) : Inv2 n init := by
   refine ⟨?_, ?_, ?_, ?_, ?_, ?_, ?_⟩ <;> simp [init, PrefixOK]
